@@ -172,6 +172,16 @@ impl StorageEngine {
             || name.contains('\0')
             || name.contains("..")
             || name == "."
+            // ':' separates the knowledge graph from the relation in persist shard names
+            // (`kg:relation`). At startup the graph of a shard is the text before the first
+            // ':' and a graph's shards are those starting with `kg:`, so a graph `a:b` would
+            // reappear inside graph `a`, and dropping `a` would delete the shards of `a:b`.
+            || name.contains(':')
+            // A graph's catalogs live in `data_dir/<name>`, next to the engine's own
+            // `persist` and `metadata` directories; a graph with one of these names would
+            // share that directory and dropping it would delete every graph's data.
+            || name == "persist"
+            || name == "metadata"
         {
             return Err(StorageError::InvalidRelationName(name.to_string()));
         }
@@ -4500,6 +4510,42 @@ mod tests {
             .execute_query_tuples_on("default", "q(X, Y) <- rel(X, Y)")
             .unwrap();
         assert_eq!(rows.len(), 2);
+    }
+
+    #[test]
+    fn test_create_rejects_names_that_collide_at_the_persistence_layer() {
+        let temp = TempDir::new().unwrap();
+        let config = create_test_config(temp.path().to_path_buf());
+        let storage = StorageEngine::new(config.clone()).unwrap();
+        storage.create_knowledge_graph("a").unwrap();
+        storage
+            .insert_tuples_into("a", "r", vec![Tuple::from_pair(1, 2)])
+            .unwrap();
+        for bad in ["a:b", "a:", ":", "persist", "metadata"] {
+            assert!(
+                matches!(
+                    storage.create_knowledge_graph(bad),
+                    Err(StorageError::InvalidRelationName(_))
+                ),
+                "name {bad:?} must be rejected"
+            );
+        }
+        // similar but harmless names are still fine
+        storage.create_knowledge_graph("persist2").unwrap();
+        storage.drop_knowledge_graph("persist2").unwrap();
+        drop(storage);
+        let storage = StorageEngine::new(config).unwrap();
+        assert_eq!(
+            storage.list_knowledge_graphs(),
+            vec!["a".to_string(), "default".to_string()]
+        );
+        assert_eq!(
+            storage
+                .execute_query_tuples_on("a", "q(X, Y) <- r(X, Y)")
+                .unwrap()
+                .len(),
+            1
+        );
     }
 
     #[test]
